@@ -99,11 +99,19 @@ def hasBase64Encoding (tags : List Tag) : Bool :=
 
 /-- what OpenMLS says about the event content (opaque to the model) -/
 inductive Content where
-  | ok          -- base64 of bytes that START with a key package passing `KeyPackageIn::validate`
-                --   (`KeyPackageIn::tls_deserialize(&mut slice)` does not look at what follows it)
+  | ok          -- base64 of exactly one serialised, valid structure (key package / MLS welcome message)
+  | trailing    -- base64 of a valid structure FOLLOWED by further bytes
   | notBase64   -- `decode_content` fails
-  | badMls      -- base64 fine, TLS deserialisation / validation of the key package fails
+  | badMls      -- base64 fine, TLS deserialisation / validation of the structure fails
   deriving DecidableEq, Repr
+
+/-- `parse_serialized_key_package`: with `KeyPackageIn::tls_deserialize_exact` (fact
+    `Generated.kpDeserializeExact`) a remainder is a TLS error; with the reader-based
+    `tls_deserialize(&mut slice)` the remainder was never looked at -/
+def kpContent (c : Content) : Content :=
+  match c with
+  | .trailing => if Generated.kpDeserializeExact then .badMls else .ok
+  | c => c
 
 structure KpEvent where
   kind : Nat
@@ -141,9 +149,10 @@ def parseKp (env : Env) (ev : KpEvent) : KpRes :=
   else if kpTagsOk env ev.tags = false then .errKp
   else if hasBase64Encoding ev.tags = false then .errKp
   else
-    match ev.content with
+    match kpContent ev.content with
     | .notBase64 => .errKp
     | .badMls => .errOther
+    | .trailing => .errOther          -- unreachable: `kpContent` never returns it
     | .ok =>
       if ev.credIdentity.length ≠ 32 then .errKp
       else if ev.credIdentity ≠ ev.author then .errIdentity
@@ -205,6 +214,36 @@ def welcomeCreate (relays : List Bytes) (eventIdHex : Bytes) : List Tag :=
     { name := .e, vals := [eventIdHex] },
     { name := .client, vals := [Generated.clientTagValue] },
     { name := .encoding, vals := [Generated.encodingTagValue] } ]
+
+/-- `create_group` / `add_members` with member key packages: `none` = `Err(Error::Group(_))`, nothing
+    is produced.  With the repair "inviting members requires at least one relay" (fact
+    `Generated.inviteRequiresRelay`) an empty relay list is refused at creation. -/
+def inviteTags (relays : List Bytes) (eventIdHex : Bytes) : Option (List Tag) :=
+  if Generated.inviteRequiresRelay && relays.isEmpty then none else some (welcomeCreate relays eventIdHex)
+
+/-- result KINDS of `process_welcome` on a fresh wrapper id -/
+inductive WRes where
+  | ok
+  | invalid       -- Error::InvalidWelcomeMessage (from `validate_welcome_event`)
+  | errWelcome    -- Error::Welcome(_) (`preview_welcome`: encoding tag / base64 / MLS failure, recorded as Failed)
+  deriving DecidableEq, Repr
+
+structure WelcomeEvent where
+  rumor : Rumor
+  content : Content
+  deriving Repr
+
+/-- `process_welcome` → `validate_welcome_event`, then `preview_welcome` (`parse_serialized_welcome`
+    refuses a non-empty remainder after the MLS message: fact `Generated.welcomeRejectsTrailing`) -/
+def processWelcome (env : Env) (ev : WelcomeEvent) : WRes :=
+  if validateWelcome env ev.rumor = false then .invalid
+  else if hasBase64Encoding ev.rumor.tags = false then .errWelcome
+  else
+    match ev.content with
+    | .ok => .ok
+    | .trailing => if Generated.welcomeRejectsTrailing then .errWelcome else .ok
+    | .notBase64 => .errWelcome
+    | .badMls => .errWelcome
 
 /-! ## `h` tag -/
 
